@@ -6,11 +6,11 @@ import (
 	"cosmossdk.io/collections"
 	"sort"
 
-	abci "github.com/cometbft/cometbft/abci/types"
 	"github.com/btcsuite/btcd/chaincfg/chainhash"
-	"github.com/cosmos/gogoproto/proto"
-	authtypes "github.com/cosmos/cosmos-sdk/x/auth/types"
+	abci "github.com/cometbft/cometbft/abci/types"
 	sdk "github.com/cosmos/cosmos-sdk/types"
+	authtypes "github.com/cosmos/cosmos-sdk/x/auth/types"
+	"github.com/cosmos/gogoproto/proto"
 	"github.com/ethereum/go-ethereum/common"
 	bitcointypes "github.com/goatnetwork/goat/x/bitcoin/types"
 	goattypes "github.com/goatnetwork/goat/x/goat/types"
